@@ -442,6 +442,39 @@ def trace_key(case, got, n, clause):
     return 'C17/%s/%s/%s' % (op['kind'], name, dkc), (op['kind'] == 'merge' and clause == 'globals')
 
 
+TWIN = 10 ** 6
+
+
+def corrupted_twins(batch):
+    """Copies of recorded sessions with one recorded field corrupted / one observation dropped."""
+    twins = {}
+    for c in batch:
+        for n, o in enumerate(c['ops']):
+            if o['tag'] == 'browser' and len(o['out']['items']) >= 2 and TWIN + 1 not in twins:
+                t = copy.deepcopy(c)
+                t['id'] = TWIN + 1
+                t['ops'][n]['out']['items'][0]['id'] += 1          # data of one returned item changed
+                twins[TWIN + 1] = t
+            if o['tag'] == 'browser' and len(o['out']['items']) >= 2 and TWIN + 2 not in twins:
+                t = copy.deepcopy(c)
+                t['id'] = TWIN + 2
+                t['ops'][n]['out']['items'].reverse()               # order not preserved
+                twins[TWIN + 2] = t
+            if o['tag'] == 'browser' and o['out']['items'] and TWIN + 3 not in twins:
+                t = copy.deepcopy(c)
+                t['id'] = TWIN + 3
+                del t['ops'][n]['out']['items'][-1]                 # one matching item missing
+                twins[TWIN + 3] = t
+        if len(c['final']) > len(c['bases']) and TWIN + 4 not in twins:
+            t = copy.deepcopy(c)
+            t['id'] = TWIN + 4
+            del t['final'][-1]                                      # one browser not re-observed at the end
+            twins[TWIN + 4] = t
+        if len(twins) == 4:
+            break
+    return twins
+
+
 def replay_case(case):
     """Re-run a recorded session on the implementation and let TLC (BrowserTrace) judge it."""
     got = run_session(case)
@@ -475,8 +508,10 @@ def configs(ctx):
         return [
             ('scan2', _consts(MaxItems=2, DataKeys=both), ['filter']),
             ('scan3', _consts(MaxItems=3, MaxKw=1, MaxQ=1), ['filter']),
-            ('select2', _consts(MaxItems=2, OpKinds=['select']), ['select']),
-            ('chain', _consts(Keys=['k1'], XVals=[], DataKeys=both, MaxQ=1, MaxOps=2, OpKinds=['filter', 'select', 'merge']),
+            ('select2', _consts(MaxItems=2, MaxKw=1, OpKinds=['select']), ['select']),
+            ('chain', _consts(Keys=['k1'], XVals=[], DataKeys=both, MaxQ=1, MaxOps=2, OpKinds=['filter', 'merge']),
+             ['filter', 'merge']),
+            ('chain-select', _consts(Keys=['k1'], XVals=[], MaxItems=1, MaxQ=1, MaxOps=2, OpKinds=['filter', 'select', 'merge']),
              ['filter', 'select', 'merge']),
             ('bases2', _consts(Keys=['k1'], Vals=['v1'], XVals=[], DataKeys=both, GNames=['g1', 'g2'], MaxBases=2, MaxItems=1, MaxQ=1,
                                OpKinds=['filter', 'merge']), ['filter', 'merge']),
@@ -546,8 +581,16 @@ def random_case(rng, rendering):
                 dks.append(dks[src - 1])
         else:
             qkeys = keys + ['kx']
-            for k in rng.sample(qkeys, rng.choice([0, 1, 1, 2, 3])):
-                op['kw'][k] = rng.choice(sub + [rng.choice(toks)])
+            allitems = [it for b in bases for it in b['items'] if it['meta']]
+            if allitems and rng.random() < 0.5:
+                # aim at an existing item: (part of) its own metadata, possibly through an equal value of another type
+                meta = rng.choice(allitems)['meta']
+                for k in rng.sample(sorted(meta), rng.randint(1, len(meta))):
+                    same = [t for t in toks if POOL_CLASS[t] == POOL_CLASS[meta[k]]]
+                    op['kw'][k] = rng.choice(same)
+            else:
+                for k in rng.sample(qkeys, rng.choice([0, 1, 1, 2, 3])):
+                    op['kw'][k] = rng.choice(sub + [rng.choice(toks)])
             op['incl'] = sorted(rng.sample(qkeys, rng.choice([0, 0, 1, 2])))
             op['excl'] = sorted(rng.sample(qkeys, rng.choice([0, 0, 1, 2])))
             if kind == 'filter':
@@ -629,10 +672,20 @@ def run_c17(ctx):
         byid[cid] = (case, executed, got)
         batch.append(to_trace_case(cid, executed, got))
     total_bad = set()
+    # binding self-test: corrupted twins of recorded sessions (one field changed / one observation dropped) ride along in
+    # the first batch under ids >= TWIN and must be rejected by TLC
+    twins = corrupted_twins(batch)
+    if len(twins) < 2:
+        raise tlc.MachineryError('no recorded session suitable for the corrupted-trace self-test')
     chunk = 5000
     for k in range(0, len(batch), chunk):
-        res, bad = validate_batch(batch[k:k + chunk], wd, 'trace%d' % (k // chunk))
+        res, bad = validate_batch(batch[k:k + chunk] + (list(twins.values()) if k == 0 else []), wd, 'trace%d' % (k // chunk))
         ctx.tlc(res, 'BrowserTrace/%d' % (k // chunk))
+        if k == 0:
+            missed = set(twins) - {b[0] for b in bad}
+            if missed:
+                raise tlc.MachineryError('BrowserTrace accepts corrupted traces %s' % sorted(missed))
+        bad = [b for b in bad if b[0] < TWIN]
         first = {}
         for cid, n, clause in sorted(bad, key=lambda b: (b[0], b[1] == 0, b[1], b[2])):
             first.setdefault(cid, (n, clause))     # the first disagreement of a session; later ones may be consequences
